@@ -532,8 +532,8 @@ where
                 self.render_expr(&_def.start)?;
                 write!(self.w, ":")?;
                 if let Some(ref e) = _def.step {
-                    write!(self.w, ":")?;
                     self.render_expr(e)?;
+                    write!(self.w, ":")?;
                 }
                 self.render_expr(&_def.end)?;
             }
